@@ -28,7 +28,7 @@ from copsim.seams import CrashTracer, body_codes_of, sterile, with_global_state
 PROPERTY = 'C15'
 LEVEL = 'exploration'
 TIERS = {
-    'quick': {'runs': 1500, 'wall': 70, 'batch': 6},
+    'quick': {'runs': 2000, 'wall': 150, 'batch': 6},
     'thorough': {'runs': 40000, 'wall': 840, 'batch': 8},
 }
 RULE = ('Each run = a seeded population of 1-4 fitted models (all sampler classes, seeds as '
